@@ -130,7 +130,7 @@ class C20:
             cases.append({"kind": 5, "cfg": base_cfg(exe="build", nargs=3, store="ok", pre=True,
                                                      build={"error": False, "launch": la, "store": st, "build_sboms": bs, "launch_sboms": ls})})
         # a launch.toml with several processes, slices and labels, one label key set twice
-        for st in (True, False):
+        for st in (True, False, True, False, True, False):      # (a two-way choice shows with probability 1/2 per pair of runs)
             cases.append({"kind": 5, "cfg": base_cfg(exe="build", nargs=3, store="ok", pre=True,
                                                      build={"error": False, "launch": "rich", "store": st, "build_sboms": [], "launch_sboms": ["cdx"]})})
         # metadata tables assembled from HashMaps by the buildpack (build plan requirement, store)
